@@ -21,7 +21,7 @@ def real(case):
     out = {"db": db}
     out["desc"] = [str(e) for l in (stems, singles, hairpins, loops) for e in l]
     out["stems"] = [(s.strand5p.first, s.strand5p.last, s.strand3p.first, s.strand3p.last) for s in stems]
-    out["singles"] = [(s.strand.first, s.strand.last, 5 if s.is5p else 3 if s.is3p else 0) for s in singles]
+    out["singles"] = [(s.strand.first, s.strand.last, 53 if (s.is5p and s.is3p) else 5 if s.is5p else 3 if s.is3p else 0) for s in singles]
     out["hairpins"] = [(h.strand.first, h.strand.last) for h in hairpins]
     out["loops"] = [[(s.first, s.last) for s in l.strands] for l in loops]
     strands = []
